@@ -15,6 +15,8 @@ from .. import uscan
 
 
 def run(ctx):
+    from .atomic import validate_before_mutate as _atomic
+    _atomic(ctx, 'C15.R4', ('Recipe.start_stage', 'Recipe.end_stage'))
     from .configtime import config_at_call_time
     config_at_call_time(ctx, 'C15.R3', classes=('Recipe', 'RecipeStep', 'Unit', 'Substance'))
     model = ctx.model
@@ -220,6 +222,7 @@ def run(ctx):
     # ---------------------------------------------------------------- R2 executable and float-typed plate path
     t4(ctx, fi, ff)
     t5(ctx)
+    distinct_accumulators(ctx, 'C15.R2')
     # ---------------------------------------------------------------- R3 units
     for q in ('Recipe.get_container_flows', 'Recipe.get_amount_remaining'):
         sc = targets.scan(ctx, q)
@@ -276,6 +279,47 @@ def t4(ctx, fi, ff):
                    why='the builtin round() raises TypeError on a numpy array: flows of a plate cannot be queried',
                    key='builtin round on ndarray')
     floor(ctx, 'round() calls in get_container_flows', n, 1)
+
+
+def distinct_accumulators(ctx, rule):
+    """The running totals of what entered and what left are two objects.  For a plate they are arrays that are updated
+    in place (`flows[k] += ..`): built with `dict.fromkeys(keys, array)` or from one name they are one array, and both
+    answers become inflow + outflow."""
+    model = ctx.model
+    fi = model.func('Recipe.get_container_flows')
+    n = 0
+    for st in ast.walk(fi.node):
+        if not (isinstance(st, ast.Assign) and len(st.targets) == 1 and isinstance(st.targets[0], ast.Name)):
+            continue
+        v = st.value
+        shared = None
+        is_acc = False
+        if isinstance(v, ast.Dict) and {getattr(k, 'value', None) for k in v.keys} >= {'in', 'out'}:
+            is_acc = True
+            names = [x.id for x in v.values if isinstance(x, ast.Name)]
+            if len(names) != len(set(names)):
+                shared = f"both keys hold the one object `{names[0]}`"
+        elif isinstance(v, ast.DictComp):
+            src = unparse(v.generators[0].iter)
+            if 'in' in src and 'out' in src or 'flows' in src:
+                is_acc = True
+                if isinstance(v.value, ast.Name) and v.value.id not in {x.id for x in ast.walk(v.generators[0].target) if isinstance(x, ast.Name)}:
+                    shared = f"every key holds the one object `{v.value.id}`"
+        elif isinstance(v, ast.Call) and unparse(v.func) == 'dict.fromkeys' and v.args:
+            src = unparse(v.args[0])
+            if ('in' in src and 'out' in src) or 'flows' in src:
+                is_acc = True
+                val = v.args[1] if len(v.args) > 1 else None
+                if val is not None and not isinstance(val, ast.Constant):
+                    shared = f"dict.fromkeys binds every key to the one object `{unparse(val, 40)}`"
+        if not is_acc:
+            continue
+        n += 1
+        ctx.ob(rule, fi, st.lineno, f"the totals of inflow and outflow are separate objects (`{unparse(st, 50)}`)",
+               shared is None, fact=shared or 'one value expression per key',
+               why='the per-well arrays are updated in place: one shared array makes "in" and "out" both report '
+                   'inflow + outflow', key='in and out share one accumulator')
+    floor(ctx, 'definitions of the flow totals', n, 1)
 
 
 def t5(ctx, rule='C15.R2', only=None, dtype_only=False):
